@@ -84,6 +84,9 @@ def unary(p, cfg, s, vs):
             if np_ != np_.lower():
                 vs.setdefault(("case", "ci-not-folded"), {"law": "case", "s": s, "norm": np_})
             ok2, dsp = _call(vs, "case", p.normalize_path, s, True)
+            if ok2 and dsp.lower() != np_:
+                # the display form differs from the plain form only by the case of the leaf
+                vs.setdefault(("case", "display-vs-plain"), {"law": "case", "s": s, "display": dsp, "plain": np_})
             if ok2:
                 leaf_in = p.basename(p.normalize_path_separators(s))
                 if p.basename(dsp) != leaf_in:
@@ -174,6 +177,18 @@ def match_laws(p, cfg, strs, vs):
             ok2, m2 = _call(vs, "match", p.paths_match, b, a)
             if ok2 and bool(m2) != bool(m):
                 vs.setdefault(("match", "asymmetric"), {"law": "match", "a": a, "b": b})
+            # display-aware equality: implies plain equality, and holds whenever the paths are equal and spell the leaf alike
+            ok3, md = _call(vs, "match", p.paths_match, a, b, True)
+            if ok3:
+                if md and not m:
+                    vs.setdefault(("match", "display-match-without-match"), {"law": "match", "a": a, "b": b})
+                if m and not md:
+                    try:
+                        same_leaf = p.basename(p.normalize_path_separators(a)) == p.basename(p.normalize_path_separators(b))
+                    except Exception:
+                        same_leaf = False
+                    if same_leaf:
+                        vs.setdefault(("match", "display-mismatch-same-leaf"), {"law": "match", "a": a, "b": b})
     # transitivity follows from agreement with an equality; checked on classes
     return len(strs) ** 2
 
